@@ -435,9 +435,9 @@ static void s_range_body(unsigned char maxc) { VF_INPUT(SS, s); VF_INPUT(unsigne
   for (int i = 0; i < 2; ++i) if (i < c && (SZ(s._storage) < N)) VF_ASSERT(has_of(view_of(&s._storage), src[i].id), "every source key is present when there was room");
   DESTROYS(0, s); LEAKFREE(0); SRC_INTACT(c); }
 
-/*@GROUP name=s_range1 props=C03,C02 kind=B unwind=7 unwindset=_ZN3etl6rotateIPN2vf7TrackedEEET_S4_S4_S4_:4,_ZN3etl10static_setIN2vf7TrackedELm4ENS_4lessIS2_EEE6insertIPKS2_EEvT_S9_.0:2 objbits=12 cost=3 bound=range_length<=1@*/
+/*@GROUP name=s_range1 props=C03,C02 kind=B unwind=7 unwindset=_ZN3etl6rotateIPN2vf7TrackedEEET_S4_S4_S4_:4,_ZN3etl10static_setIN2vf7TrackedELm4ENS_4lessIS2_EEE6insertIPKS2_EEvT_S9_.0:2 objbits=12 cost=3 when=VF_N==4 bound=range_length<=1@*/
 void h_s_range1(void) { s_range_body(1); VF_REACH(); }
-/*@GROUP name=s_range2 props=C03,C02 kind=B unwind=7 unwindset=_ZN3etl6rotateIPN2vf7TrackedEEET_S4_S4_S4_:4,_ZN3etl10static_setIN2vf7TrackedELm4ENS_4lessIS2_EEE6insertIPKS2_EEvT_S9_.0:3 objbits=12 cost=6 tier=thorough timeout=900 bound=range_length<=2@*/
+/*@GROUP name=s_range2 props=C03,C02 kind=B unwind=7 unwindset=_ZN3etl6rotateIPN2vf7TrackedEEET_S4_S4_S4_:4,_ZN3etl10static_setIN2vf7TrackedELm4ENS_4lessIS2_EEE6insertIPKS2_EEvT_S9_.0:3 objbits=12 cost=6 when=VF_N==4 tier=thorough timeout=900 bound=range_length<=2@*/
 void h_s_range2(void) { s_range_body(2); VF_REACH(); }
 
 /*@GROUP name=s_erase props=C03,C02 kind=K unwind=7 unwindset=_ZN3etl6rotateIPN2vf7TrackedEEET_S4_S4_S4_:4 objbits=12 cost=2@*/
